@@ -179,7 +179,8 @@ mod verif_rtr_w {
     /// lets the spawned connection task(s) run until they wait for the socket
     fn turn(rt: &Runtime) { rt.block_on(tokio::task::yield_now()) }
     /// Polls the client's future and runs the server side in turn.  None: nobody moves any more (the real
-    /// client would run into its timeout: the step does not complete).  Panics beyond the budgets.
+    /// client would run into its timeout) or the library panicked: the step does not complete, which is not
+    /// this property's subject.  Panics beyond the budgets.
     fn drive<F: Future>(rt: &Runtime, wire: &Arc<Mutex<Wire>>, f: F) -> Option<F::Output> {
         let waker = Waker::from(Arc::new(Nop));
         let mut cx = Context::from_waker(&waker);
@@ -187,7 +188,11 @@ mod verif_rtr_w {
         let mut idle = 0;
         for _ in 0..TURN_BUDGET {
             let before = lock(wire).moved;
-            if let Poll::Ready(v) = f.as_mut().poll(&mut cx) { return Some(v) }
+            match std::panic::catch_unwind(std::panic::AssertUnwindSafe(|| f.as_mut().poll(&mut cx))) {
+                Ok(Poll::Ready(v)) => return Some(v),
+                Ok(Poll::Pending) => {}
+                Err(_) => { if lock(wire).blown { panic!("{}", SPIN) } return None }
+            }
             turn(rt);
             let w = lock(wire);
             if w.blown { drop(w); panic!("{}", SPIN) }
@@ -378,7 +383,7 @@ mod verif_rtr_w {
         let mut h = src.h();
         let h = &mut *h;
         let far = match g.pick(4) { 0 => 2 + g.pick(1000) as u32, 1 => 0x7FFF_FFFF, 2 => (u32::MAX - h.serial).wrapping_add(1 + g.pick(3) as u32), _ => g.pick(1 << 32) as u32 };
-        if g.pick(4) == 0 {
+        if g.pick(5) == 0 {
             // a new session (server restart): the serial stays, starts again, or is anything
             h.session = h.session.wrapping_add(1 + g.pick(3) as u16);
             h.serial = match g.pick(4) { 0 | 1 => h.serial, 2 => g.pick(3) as u32, _ => h.serial.wrapping_add(far) };
@@ -390,7 +395,7 @@ mod verif_rtr_w {
                 0 => {}                                                     // nothing new: serial and data stay
                 k => {
                     if g.pick(5) == 0 { h.snaps.clear() }
-                    if g.pick(3) != 0 { h.snaps.insert(h.serial, h.data.clone()); }   // a diff from the old state stays available, or not
+                    if g.pick(4) != 0 { h.snaps.insert(h.serial, h.data.clone()); }   // a diff from the old state stays available, or not
                     h.serial = h.serial.wrapping_add(if k <= 3 { 1 } else { far });
                     *comp = comp.vary(g);
                 }
@@ -402,7 +407,7 @@ mod verif_rtr_w {
         h.snaps.remove(&h.serial);
         h.data = data;
         h.reported.insert((h.session, h.serial), h.data.clone());
-        h.same_ok = g.pick(4) != 0;
+        h.same_ok = g.pick(5) != 0;
         h.replace_with_withdraw = g.pick(2) == 0;
         h.withdraw_with_providers = g.pick(2) == 0;
         h.reversed = g.pick(2) == 0;
@@ -419,7 +424,7 @@ mod verif_rtr_w {
         /// the timing the target was handed last on this connection
         last_timing: Option<Timing>,
     }
-    fn connect(rt: &Runtime, src: &Src, g: &mut Sel, init: u8, server_max: u8, target: Tgt, state: Option<State>) -> Conn {
+    fn connect(rt: &Runtime, src: &Src, g: &mut Sel, init: u8, server_max: u8, target: Tgt, state: Option<State>) -> Option<Conn> {
         let wire = Arc::new(Mutex::new(Wire {
             c2s: VecDeque::new(), s2c: VecDeque::new(), log: Vec::new(), partial: Vec::new(), server_max,
             server_waker: None, client_gone: false, server_gone: false, moved: 0, ops: 0, blown: false,
@@ -428,10 +433,10 @@ mod verif_rtr_w {
         let listener = futures_util::stream::iter(vec![Ok::<_, io::Error>(ServerEnd(wire.clone()))]);
         // Server::run spawns the connection onto the runtime and returns when the listener is exhausted
         let run = drive(rt, &wire, Server::new(listener, notify.clone(), src.clone()).run());
-        assert!(matches!(run, Some(Ok(()))), "Server::run accepts the connection");
+        if !matches!(run, Some(Ok(()))) { return None }
         let sock = ClientEnd(wire.clone());
         let client = if init == 2 && g.pick(2) == 0 { Client::new(sock, target, state) } else { Client::with_initial_version(init, sock, target, state) };
-        Conn { client, wire, notify, waits: false, last_timing: None }
+        Some(Conn { client, wire, notify, waits: false, last_timing: None })
     }
 
     /// One synchronisation step and the clauses of the property after it.  `held`: what the target holds.
@@ -485,7 +490,7 @@ mod verif_rtr_w {
     fn some_init(g: &mut Sel) -> u8 { match g.pick(8) { 0 | 1 => 0, 2 | 3 => 1, 4 | 5 => 2, 6 => 3, _ => 255 } }
     fn some_server_max(g: &mut Sel) -> u8 { match g.pick(6) { 0 => 0, 1 => 1, _ => 2 } }
 
-    //@harness rtr_w_exchange W fn=Client::{new,with_initial_version,step,update,serial,reset,apply,state,check_version},FirstSerialReply::read,FirstResetReply::read,Server::run,Connection::{run,recv,check_version,serial,reset,notify},pdu::Payload::{new_if_supported,read,to_payload},pdu::EndOfData::{new,read_payload,state,timing},pdu::CacheResponse::new,pdu::CacheReset::new,pdu::SerialQuery::new,pdu::ResetQuery::new n=12000 timeout=600
+    //@harness rtr_w_exchange W fn=Client::{new,with_initial_version,step,update,serial,reset,apply,state,check_version},FirstSerialReply::read,FirstResetReply::read,Server::run,Connection::{run,recv,check_version,serial,reset,notify},pdu::Payload::{new_if_supported,read,to_payload},pdu::EndOfData::{new,read_payload,state,timing},pdu::CacheResponse::new,pdu::CacheReset::new,pdu::SerialQuery::new,pdu::ResetQuery::new n=60000 timeout=600
     verif_search!{ rtr_w_exchange; |r: u64, session: u16, serial: u32, t0: u32, t1: u32, t2: u32, a4: u32, a6: u128, asn: u32, kid: [u8; 20], p0: u32| {
         RT.with(|rt| {
             let _ctx = rt.enter();
@@ -500,7 +505,9 @@ mod verif_rtr_w {
                 same_ok: true, replace_with_withdraw: false, withdraw_with_providers: true, reversed: false,
                 reported: [((session, serial), first)].into_iter().collect(),
             })));
-            if g.pick(2) == 0 { mutate(&src, &pool, &mut comp, &mut g, raw_timing) }
+            // (everything that happens before the client's first step happens before the client is made: a
+            // made-up initial state must not become a state of the source afterwards)
+            for _ in 0..g.pick(4) { mutate(&src, &pool, &mut comp, &mut g, raw_timing) }
 
             // the client: new, or started with a state and the data that goes with it (an earlier state of this
             // source), or with a state of some other cache and its data
@@ -522,13 +529,15 @@ mod verif_rtr_w {
                 };
                 state = Some(State::from_parts(s, Serial(n)));
             }
-            let mut conn = connect(rt, &src, &mut g, init, server_max, Tgt::default(), state);
+            let mut conn = match connect(rt, &src, &mut g, init, server_max, Tgt::default(), state) { Some(c) => c, None => return };
             let mut version: Option<u8> = None;
 
             let rounds = 2 + g.pick(4);
             for round in 0..rounds {
-                if round > 0 || g.pick(2) == 0 { mutate(&src, &pool, &mut comp, &mut g, raw_timing) }
-                if g.pick(5) == 0 { mutate(&src, &pool, &mut comp, &mut g, raw_timing) }   // the client misses a state
+                if round > 0 {
+                    mutate(&src, &pool, &mut comp, &mut g, raw_timing);
+                    if g.pick(5) == 0 { mutate(&src, &pool, &mut comp, &mut g, raw_timing) }   // the client misses a state
+                }
                 if round > 0 && g.pick(4) == 0 {
                     // a new connection; the stored state is used again only with the same protocol version
                     // (another version carries other payload types: the data would not go with the state)
@@ -536,7 +545,8 @@ mod verif_rtr_w {
                     init = some_init(&mut g);
                     server_max = some_server_max(&mut g);
                     let same = version == Some(init.min(2).min(server_max));
-                    conn = connect(rt, &src, &mut g, init, server_max, tgt, if same && g.pick(4) != 0 { st } else { None });
+                    let reuse = same && g.pick(4) != 0;
+                    conn = match connect(rt, &src, &mut g, init, server_max, tgt, if reuse { st } else { None }) { Some(c) => c, None => return };
                 }
                 let reset_only = g.pick(5) == 0;
                 match step(rt, &mut conn, &src, &mut held, reset_only) {
